@@ -617,5 +617,12 @@ pub mod verif_probe {
         pub fn poll_next(&mut self, cx: &mut Context<'_>) -> Poll<Option<(K, T)>> {
             Pin::new(&mut self.0).poll_next(cx)
         }
+        /// Will the next `poll_next` give control back because a round of deliveries has
+        /// passed while a stream was waiting? (the condition `poll_next` starts with)
+        pub fn round_yield_due(&self) -> bool {
+            let inner = self.0.inner.lock();
+            self.0.served_since_pending > inner.streams.len()
+                && inner.queued.len() < inner.streams.len()
+        }
     }
 }
